@@ -168,3 +168,18 @@ Example C04_example :
              [(v9_from_u16 1, VNum (U32 4294967295)); (v9_from_u16 7, VNum (U16 53)); (v9_from_u16 4, VProto 17)] ]%N
            [x00].
 Proof. vm_compute. reflexivity. Qed.
+
+(* ---- buffer level (imports kept local: they shadow names used above) ---- *)
+From NF Require Import Parser IxStream IxStreamFacts BufferFacts.
+
+(* The whole buffer, across packets and protocols: ANY sequence of conformant V9 packets and
+   IPFIX messages chained in one parse_bytes call -- each conformant for the collector state the
+   packets before it leave -- is reported as exactly the expected elements in order, each with
+   the state after it (so a template defined in one packet governs data in any later packet of
+   the buffer, and by C06_split_independent / C11 of any later call). *)
+Theorem C04_buffer : forall puf allow s ps ex,
+  allow 9%N = true -> allow 10%N = true -> expect_pkts puf s ps ex ->
+  parse_bytes puf allow s (enc_pkts s ps ex) = Some ex.
+Proof. exact decode_buffer. Qed.
+Print Assumptions C04_buffer.
+
